@@ -82,6 +82,7 @@ func (m *bloomRedis) Exec(op Tok) (opOut Tok, obs Tok) {
 		p := float64(a[3].U()) / 1e6
 		size0 := gx.VerifCalcFilterSize(n, p)
 		k0 := gx.VerifCalcNumHashes(size0, n)
+		before := redisKeys()
 		f, err := gx.NewRedisBloomFilterWithParameters(n, p)
 		key, meta := "", ""
 		if f != nil {
@@ -93,6 +94,9 @@ func (m *bloomRedis) Exec(op Tok) (opOut Tok, obs Tok) {
 			return opOut, TErr(errGeneric)
 		}
 		m.inst[a[1].I()] = f
+		if t, bad := staleKey(before, key, meta); bad {
+			return opOut, t
+		}
 		return opOut, TOk(tparams(f))
 	case blFromBits:
 		words := make([]uint64, len(a[2].L))
@@ -193,7 +197,7 @@ func (m *bloomRedis) Exec(op Tok) (opOut Tok, obs Tok) {
 			return TL(a[0], a[1]), inv
 		}
 		opOut = TL(a[0], a[1], bloomDocTok(src))
-		if err := f.Import(src); err != nil {
+		if err := f.Import(src); err != nil { // Bloom's Import writes into the filter's own bitset key
 			return opOut, TErr(errGeneric)
 		}
 		return opOut, TOk(TUnit())
